@@ -177,6 +177,7 @@ def check(chk):
     chk.judge('self.deserializer.get_deserializer(obj[GraphSON2Serializer.TYPE_KEY])' in s.replace('self.TYPE_KEY', 'GraphSON2Serializer.TYPE_KEY') or 'TYPE_KEY' in s, 'C40.value', rd,
               'reader selects the TypeIO by "@type"', 'reader dispatch changed')
     chk.require('C40.closure', 30)
+    _registry_rule(chk, m)
 
 
 def _bases(classes, t):
@@ -301,3 +302,21 @@ def _lossless_rule(chk, m):
                          'as e.g. 999-12-31, which the reader (strptime with the same format) rejects and hands back as a raw string')
     if n < 2:
         raise AnalysisError('C40.lossless: date / time formatting calls in the TypeIO serializers not found (%d)' % n)
+
+
+def _registry_rule(chk, mod):
+    """each GraphSON protocol level has its own table of TypeIOs: a subclass starts from a copy of its parent's table"""
+    chk.rule('C40.registry', 'get_type_definitions returns a copy of the class\'s serializer table (every serializer class then registers into its own dict)')
+    f = mod.func('_BaseGraphSONSerializer.get_type_definitions')
+    rets = [r for r in body_walk(f) if isinstance(r, ast.Return) and r.value is not None]
+    def fresh(v):
+        return (isinstance(v, ast.Call) and isinstance(v.func, ast.Attribute) and v.func.attr == 'copy' and src(v.func.value) == 'cls._serializers') or \
+            (isinstance(v, ast.Call) and isinstance(v.func, ast.Name) and v.func.id in ('dict', 'OrderedDict') and v.args and src(v.args[0]) == 'cls._serializers') or \
+            isinstance(v, ast.DictComp)
+    chk.judge(bool(rets) and all(fresh(r.value) for r in rets), 'C40.registry', f, 'get_type_definitions -> cls._serializers.copy()',
+              'the table itself is handed out (%s): the GraphSON 1, 2 and 3 serializers then share one dict, and a later register() for one level (GraphSON3: dict -> MapTypeIO) '
+              'replaces the TypeIO of the others - GraphSON 2 starts writing g:Map, which its own reader does not know' % [src(r.value) for r in rets])
+    users = [c for q, fn in mod.functions() for c in body_walk(fn) if isinstance(c, ast.Call) and isinstance(c.func, ast.Attribute) and c.func.attr == 'get_type_definitions']
+    cls_users = [st for cls in mod.tree.body if isinstance(cls, ast.ClassDef) for st in cls.body if isinstance(st, ast.Assign) and 'get_type_definitions()' in src(st.value)]
+    if len(users) + len(cls_users) < 1:
+        raise AnalysisError('C40.registry: no user of get_type_definitions found')
